@@ -56,6 +56,18 @@ func (e *Exec) loadLeaf(p Ptr, rel int) Value {
 }
 
 func (e *Exec) storeLeaf(p Ptr, rel int, v Value) {
+	if len(e.guard) > 0 {
+		// inside an if-converted region: the store takes effect only when the region's guard holds
+		nv, ok := v.(*sym.Term)
+		if !ok {
+			panic(unsupported("guarded store of a non-integer value"))
+		}
+		old, ok := e.loadLeaf(p, rel).(*sym.Term)
+		if !ok {
+			panic(unsupported("guarded store over a non-integer cell"))
+		}
+		v = e.tb.Ite(e.tb.BAnd(e.guard...), nv, old)
+	}
 	if p.Sym == nil {
 		e.setCell(p.Obj, p.Off+rel, v)
 		return
